@@ -51,6 +51,12 @@ func (e *eventStream) Receive(c *Context) {
 				delete(e.subs, key)
 				continue
 			}
+			// The same goes for subscribers of another node when there is no remote
+			// to reach them: every forward is an EngineRemoteMissingEvent.
+			if !c.engine.isLocalMessage(sub) && c.engine.remote == nil {
+				delete(e.subs, key)
+				continue
+			}
 			c.Forward(sub)
 		}
 	}
